@@ -315,6 +315,11 @@ where
         }
         assert!(final_state.is_some());
 
+        // Within a state, conflicts were discovered in the (randomly seeded) iteration order of
+        // the state graph's edges: sort them so that the same grammar always gives the same table.
+        reduce_reduce.sort_by_key(|&(tidx, pidx, r_pidx, stidx)| (stidx, tidx, pidx, r_pidx));
+        shift_reduce.sort_by_key(|&(tidx, pidx, stidx)| (stidx, tidx, pidx));
+
         let mut nt_depth = HashMap::new();
         let mut core_reduces = Vob::<u64>::from_elem_with_storage_type(
             false,
